@@ -563,6 +563,18 @@ def _single_membership(ctx):
                    % (cur, var),
                    construct='single membership before ' +
                    site[0].text(40))
+            # ... and it always joins the allocation it was loaded for (the
+            # one naming its partition): no path of the routine skips the
+            # join, whatever the instance belonged to before
+            skip = K.find_path(graph.entry, [graph.exit],
+                               cut_node=lambda n, s=site[0]: n is s,
+                               follow_exc=False)
+            ctx.ob('C06.5', func, site[0], skip is None,
+                   'every call of %s queues the instance with the allocation '
+                   'given (an allocation of the same name in another '
+                   'partition is another allocation)' % func.name,
+                   path=K.describe(skip) if skip else None,
+                   construct='join on every path of %s' % func.name)
     ctx.require(count >= 1, '<allocation>.add(<instance>) in Cell')
 
 
@@ -690,7 +702,40 @@ def _manifest_priority(ctx):
     ctx.require(hits >= 1, "reads of manifest['priority'] in load_app")
 
 
+def _assignments_rebuilt(ctx):
+    """C06.7: the pattern -> (priority, allocation) table is rebuilt on every
+    load of the allocations - entries of an earlier load must not stay in
+    front of the new ones (find_assignment takes the first match)."""
+    loader = ctx.index.get_class(K.LOADER, 'Loader')
+    func = loader.methods.get('load_allocations')
+    ctx.require(func is not None, 'Loader.load_allocations')
+    graph = ctx.cfg(func)
+    fills = [n for n in graph.nodes if any(
+        K.is_meth(c, 'append', 'extend', 'insert', 'setdefault') and
+        'self.assignments' in (K.recv_text(c) or '')
+        for c in C.node_calls(n)) or (
+            n.kind == 'stmt' and isinstance(n.ast, ast.Assign) and any(
+                isinstance(t, ast.Subscript) and
+                N.txt(t.value) == 'self.assignments'
+                for t in n.ast.targets))]
+    ctx.require(fills, 'assignment table filled in load_allocations')
+    fresh = [n for n in graph.nodes if n.kind == 'stmt' and
+             isinstance(n.ast, ast.Assign) and any(
+                 N.txt(t) == 'self.assignments' for t in n.ast.targets) and
+             isinstance(n.ast.value, (ast.Call, ast.Dict)) and not any(
+                 'self.assignments' in N.txt(a)
+                 for a in getattr(n.ast.value, 'args', []))]
+    for node in fills:
+        ok = bool(fresh) and K.guarded_by(
+            graph, node, lambda e: e.src in fresh)
+        ctx.ob('C06.7', func, node, ok,
+               'assignments are added to a table created by this load '
+               '(entries of an earlier load do not survive in front of '
+               'them)', construct='assignment table rebuilt')
+
+
 def check(ctx):
+    _assignments_rebuilt(ctx)
     alloc, priv, merged = _generators(ctx)
     _sort_key(ctx, priv)
     _rank(ctx, priv)
@@ -707,6 +752,10 @@ _S = 'lib/python/treadmill/scheduler/__init__.py'
 _L = 'lib/python/treadmill/scheduler/loader.py'
 
 MUTANTS = [
+    ('assignments-not-reset', [(_L, """        self.assignments = collections.defaultdict(list)
+        for obj in data:
+""", """        for obj in data:
+""")], 'C06.7'),
     ('key-priority-ascending', [(_S, """            return (-app.priority, 0 if app.server else 1,
 """, """            return (app.priority, 0 if app.server else 1,
 """)], 'C06.1'),
